@@ -1,6 +1,7 @@
 package crlrepository
 
 import (
+	"math/big"
 	"path/filepath"
 
 	"github.com/gr33nbl00d/caddy-revocation-validator/config"
@@ -20,7 +21,22 @@ func VerifC09_Propagation() {
 	loc := &core.CRLLocations{CRLDistributionPoints: []string{url1}}
 	_, err := w.repo.AddCRL(loc, chainsOf(c0))
 	verifrt.Assert(err == nil, "load ok")
+	// optionally a second, healthy list of the same issuer that does not list the probe is in force as
+	// well; the repository map is then walked in either order (the faulty store first or last)
+	var other *big.Int
+	if verifrt.Choose(2) == 1 {
+		const urlB = "http://b/crl"
+		other = sym("other")
+		servers[urlB] = &server{up: true, crl: newCRL("B", "CN=I1", other)}
+		_, err = w.repo.AddCRL(&core.CRLLocations{CRLDistributionPoints: []string{urlB}}, chainsOf(cert("CN=I1", sym("x"), urlB)))
+		verifrt.Assert(err == nil, "second list loaded")
+		verifrt.MapOrders(true)
+		verifrt.Reach("two-lists")
+	}
 	probe := sym("probe")
+	if other != nil {
+		verifrt.Assume(probe.Cmp(other) != 0) // the second list does not list the probe
+	}
 	fault := verifrt.Choose(4)
 	switch fault {
 	case 3: // a refresh whose store swap fails (up to two injected storage faults): "missing store after a failed swap"
